@@ -12,7 +12,7 @@
    literals of the generated code that are not identifiers. *)
 From Coq Require Import String List Bool Arith.
 From SM Require Import Ident Ast Front Spec Gir Codegen Sem Dyn Script Static.
-From SM.Lemmas Require Import FrontLemmas FrontTop GirLemmas SemLemmas RefSem SemProps HookTheorems Examples RenameLemmas FrontRename.
+From SM.Lemmas Require Import FrontLemmas FrontTop GirLemmas SemLemmas RefSem SemProps HookTheorems Examples RenameLemmas FrontRename CodegenRename.
 Import ListNotations.
 Open Scope string_scope.
 Open Scope list_scope.
@@ -87,6 +87,63 @@ Theorem C18_front_end_is_natural_in_identifiers :
   forall d : defn, front (rn_defn f d) = rn_result (rn_machine f) (front d).
 Proof. exact front_rn. Qed.
 
+(* the code generator: the generated program of the renamed machine is the relabelled generated program,
+   where the derived namespaces (methods, variants, data fields, accessors) are relabelled by any functions
+   that send each old derived name to the re-derived one (CodegenRename.compat) *)
+Theorem C18_renamed_definition_is_the_relabelled_twin :
+  forall (f mth var fld acc : ident -> ident) (d : defn) (m : machine) (feat : bool),
+  injective f -> (forall x, is_snake_case (f x) = is_snake_case x) ->
+  front d = Ok m -> compat f mth var fld acc m ->
+  front (rn_defn f d) = Ok (rn_machine f m) /\
+  codegen (rn_machine f m) feat = rn_gir (R f mth var fld acc) (codegen m feat) /\
+  gen_dyn (rn_machine f m) = rn_gdyn (R f mth var fld acc) (gen_dyn m).
+Proof.
+  intros f mth var fld acc d m feat Hi Hs Hf Hc. split; [|split].
+  - rewrite (front_rn f Hi Hs d), Hf. reflexivity.
+  - apply codegen_rn; assumption.
+  - apply gen_dyn_rn; assumption.
+Qed.
+
+(* ... and, when those functions are injective too, it behaves exactly like its twin: every dynamic
+   dispatch, every typed method lookup and run, construction, conversion and data access of the renamed
+   machine is the relabelled image of the same operation on the original machine *)
+Theorem C18_renamed_definition_behaves_like_its_twin :
+  forall (f mth var fld acc : ident -> ident) (d : defn) (m : machine) (feat : bool),
+  injective f -> (forall x, is_snake_case (f x) = is_snake_case x) -> f "" = "" -> f "<extracted>" = "<extracted>" ->
+  injective mth -> injective var -> injective fld ->
+  front d = Ok m -> compat f mth var fld acc m ->
+  let Rr := R f mth var fld acc in
+  let m' := rn_machine f m in
+  front (rn_defn f d) = Ok m' /\
+  (forall dd ev pl w b,
+     handle (codegen m' feat) (gen_dyn m') (rn_dyn Rr dd) (f ev) pl (rn_oracle Rr w) b
+     = rn_hout Rr (handle (codegen m feat) (gen_dyn m) dd ev pl w b)) /\
+  (forall s n, methods_of (codegen m' feat) (f s) (mth n) = map (rn_method Rr) (methods_of (codegen m feat) s n)) /\
+  (forall gm self pl w b,
+     run_method (rn_method Rr gm) (rn_tm Rr self) pl (rn_oracle Rr w) b = rn_out Rr (run_method gm self pl w b)) /\
+  (forall s ctx, typed_new (codegen m' feat) (f s) ctx = option_map (rn_tm Rr) (typed_new (codegen m feat) s ctx)) /\
+  (forall ctx, dyn_new (codegen m' feat) (gen_dyn m') ctx = option_map (rn_dyn Rr) (dyn_new (codegen m feat) (gen_dyn m) ctx)) /\
+  (forall dd, current_state (gen_dyn m') (rn_dyn Rr dd) = option_map f (current_state (gen_dyn m) dd)) /\
+  (forall dd v, into_state (f v) (rn_dyn Rr dd)
+                = match into_state v dd with inl tm => inl (rn_tm Rr tm) | inr d' => inr (rn_dyn Rr d') end) /\
+  (forall a dd, In a (gen_accs m) -> In (rn_acc Rr a) (gen_accs m') /\ acc_read (rn_acc Rr a) (rn_dyn Rr dd) = acc_read a dd).
+Proof.
+  intros f mth var fld acc d m feat Hi Hs H0 Hx Hm Hv Hf Hfr Hc Rr m'.
+  destruct (C18_renamed_definition_is_the_relabelled_twin f mth var fld acc d m feat Hi Hs Hfr Hc) as (F & G & D).
+  fold m' in F, G, D. fold Rr in G, D. rewrite G, D.
+  split; [exact F|].
+  split; [intros dd ev pl w b; apply (handle_rn Rr); assumption|].
+  split; [intros s n; apply (methods_of_rn Rr); assumption|].
+  split; [intros gm self pl w b; apply run_method_rn|].
+  split; [intros s ctx; apply (typed_new_rn Rr); assumption|].
+  split; [intros ctx; apply (dyn_new_rn Rr); assumption|].
+  split; [intros dd; apply (current_state_rn Rr); assumption|].
+  split; [intros dd v; apply (into_state_rn Rr); assumption|].
+  intros a dd Ha. split.
+  - unfold m'. rewrite (gen_accs_rn f mth var fld acc Hi m Hc). apply in_map. exact Ha.
+  - apply (acc_read_rn Rr); assumption.
+Qed.
+
 (* the hypotheses are satisfiable by relabellings that move identifiers *)
 Definition sw : ident -> ident := swap2 "A" "B" "go" "back".
 Lemma sw_involutive x : sw (sw x) = x.
@@ -124,6 +181,34 @@ Example C18_relabelled_run :
   match front (rn_defn sw ex_defn) with Ok m => m_initial m = "B" /\ In "back" (map e_name (m_events m)) | Err _ => False end.
 Proof. vm_compute. repeat split; try reflexivity. left; reflexivity. Qed.
 
+(* the hypotheses of the twin theorems are met by a renaming of the example definition that swaps the
+   states A and B and the events go and back, with the derived namespaces permuted accordingly *)
+Definition ex_f := swaps [("A", "B"); ("go", "back")].
+Definition ex_mth := swaps [("go", "back")].
+Definition ex_var := swaps [("Go", "Back")].
+Definition ex_fld := swaps [("__state_data_a", "__state_data_b")].
+Definition ex_acc := swaps [("state_data_a", "state_data_b"); ("state_data_a_mut", "state_data_b_mut");
+                            ("a_data", "b_data"); ("a_data_mut", "b_data_mut"); ("set_a_data", "set_b_data");
+                            ("into_a", "into_b")].
+Ltac nodup_strings := repeat (apply NoDup_cons; [cbn; intuition discriminate|]); apply NoDup_nil.
+Example C18_twin_hypotheses_are_satisfiable :
+  injective ex_f /\ (forall x, is_snake_case (ex_f x) = is_snake_case x) /\ ex_f "" = "" /\ ex_f "<extracted>" = "<extracted>" /\
+  injective ex_mth /\ injective ex_var /\ injective ex_fld /\
+  front ex_defn = Ok ex_machine /\ compat ex_f ex_mth ex_var ex_fld ex_acc ex_machine /\
+  m_initial (rn_machine ex_f ex_machine) = "B".
+Proof.
+  split; [apply swaps_injective; nodup_strings|].
+  split; [apply swaps_snake; repeat constructor|].
+  do 2 (split; [reflexivity|]).
+  do 3 (split; [apply swaps_injective; nodup_strings|]).
+  split; [exact ex_front|]. split; [|reflexivity].
+  unfold compat. split; [|split; [|split]].
+  - intros ev H. cbn in H. repeat (destruct H as [<-|H]; [split; reflexivity|]). elim H.
+  - intros s e H. cbn in H. repeat (destruct H as [E|H]; [inversion E; subst; reflexivity|]). elim H.
+  - intros sp H. cbn in H. repeat (destruct H as [<-|H]; [repeat split; reflexivity|]). elim H.
+  - intros s H. cbn in H. repeat (destruct H as [<-|H]; [reflexivity|]). elim H.
+Qed.
+
 (* the property fails on the current tree for identifiers equal to a generated type parameter: this
    accepted definition names a state `C`, which the header `impl<C> M<C, C>` resolves to the parameter
    (rustc compiles it with different types -- the K3 capture probe; known finding F4) *)
@@ -159,5 +244,7 @@ Print Assumptions C18_success_does_not_depend_on_hook_names.
 Print Assumptions C18_method_run_is_natural_in_identifiers.
 Print Assumptions C18_dispatch_is_natural_in_identifiers.
 Print Assumptions C18_front_end_is_natural_in_identifiers.
+Print Assumptions C18_renamed_definition_is_the_relabelled_twin.
+Print Assumptions C18_renamed_definition_behaves_like_its_twin.
 Print Assumptions C18_refuted_by_generic_parameter_capture.
 Print Assumptions C18_hygienic_characterisation.
